@@ -27,12 +27,16 @@ ProvOf(j) == [chan |-> j.chan, ns |-> j.ns, nr |-> j.nr, na |-> j.na,
               commit |-> MapOf(j.commit), receipt |-> SetOf(j.receipt),
               ack |-> MapOf(j.ack), async |-> SetOf(j.async)]
 
+\* application writes are logged as [k, i, w] records
+AppOf(arr) == { <<arr[x].k, arr[x].i, arr[x].w>> : x \in DOMAIN arr }
+
 InitChainOf(j) == [h |-> j.h,
                    bt |-> [p \in 0..j.h |-> j.bt[p + 1]],
                    hist |-> [p \in 0..j.h |-> ProvOf(j.cur)],
-                   cur |-> ProvOf(j.cur), cons |-> SetOf(j.cons), frozen |-> j.frozen, log |-> j.log]
+                   cur |-> ProvOf(j.cur), cons |-> SetOf(j.cons), frozen |-> j.frozen, log |-> j.log,
+                   app |-> AppOf(j.app)]
 InitOf(ln) == [now |-> ln.st.now, ch |-> [c \in Chains |-> InitChainOf(ln.st.ch[c])]]
-ObsOf(ln)  == [c \in Chains |-> [dig |-> ln.st.ch[c].dig, status |-> ln.st.ch[c].status]]
+ObsOf(ln)  == [c \in Chains |-> [dig |-> ln.st.ch[c].dig, status |-> ln.st.ch[c].status, meta |-> ln.st.ch[c].meta]]
 
 (***************************************************************************)
 (* Monitors                                                                *)
@@ -148,8 +152,26 @@ Viol(pre, a, r, post, dig0, dig1, st1, st2) ==
            IF ~IsSend(a) /\ (pc.ns # cur.ns \/ NewKeys # {}) THEN {1} ELSE {} }
   \* ---- C09 / C10 receive outcome (mock applications; app state part is in the app drivers) ----
   \cup { <<"C09", "error-ack-kept-with-receipt">> : x \in
-           IF a.a = "RecvV1" /\ r = "ok" /\ P.data[1] = "fail"
-              /\ ~(k \in DOMAIN pc.ack /\ pc.ack[k] = <<"err">>) THEN {1} ELSE {} }
+           IF a.a = "RecvV1" /\ r = "ok" /\ OutcomeOf(P.data[1]) = "fail"
+              /\ ~(/\ k \in DOMAIN pc.ack /\ pc.ack[k] = <<"err">>
+                   /\ IF KIND = "ORDERED" THEN pc.nr = cur.nr + 1 ELSE k \in pc.receipt) THEN {1} ELSE {} }
+  \cup { <<"C09", "failed-receive-discards-app-state">> : x \in
+           IF a.a = "RecvV1" /\ r = "ok" /\ OutcomeOf(P.data[1]) = "fail" /\ ps.app # cs.app THEN {1} ELSE {} }
+  \cup { <<"C09", "successful-or-async-receive-keeps-app-state">> : x \in
+           IF a.a = "RecvV1" /\ r = "ok" /\ OutcomeOf(P.data[1]) # "fail"
+              /\ ps.app # cs.app \cup AppWrites(P, {1}) THEN {1} ELSE {} }
+  \cup { <<"C09", "app-state-changes-only-by-receive">> : x \in
+           IF ~(IsRecv(a) /\ r = "ok") /\ ps.app # cs.app THEN {1} ELSE {} }
+  \cup { <<"C10", "all-or-nothing-app-state">> : x \in
+           IF a.a = "RecvV2" /\ r = "ok"
+              /\ ps.app # (IF \E i \in DOMAIN P.data : OutcomeOf(P.data[i]) = "fail" THEN cs.app
+                           ELSE cs.app \cup AppWrites(P, DOMAIN P.data)) THEN {1} ELSE {} }
+  \cup { <<"C10", "sentinel-iff-some-payload-failed">> : x \in
+           IF a.a = "RecvV2" /\ r = "ok" /\ k \in DOMAIN pc.ack
+              /\ ~((pc.ack[k] = <<"SENTINEL">>) <=> (\E i \in DOMAIN P.data : OutcomeOf(P.data[i]) = "fail")) THEN {1} ELSE {} }
+  \cup { <<"C10", "success-ack-one-per-payload-without-sentinel">> : x \in
+           IF a.a = "RecvV2" /\ r = "ok" /\ k \in DOMAIN pc.ack /\ pc.ack[k] # <<"SENTINEL">>
+              /\ ~(Len(pc.ack[k]) = Len(P.data) /\ \A i \in DOMAIN pc.ack[k] : pc.ack[k][i] # "SENTINEL") THEN {1} ELSE {} }
   \cup { <<"C10", "ack-list-shape">> : x \in
            IF a.a = "RecvV2" /\ r = "ok" /\ E.res = "ok" /\ pc.ack # E.S.ch[c].cur.ack THEN {1} ELSE {} }
   \cup { <<"C10", "async-only-single-payload">> : x \in
@@ -219,10 +241,22 @@ TraceNext ==
        ELSE LET a  == ln.a
                 c  == a.c
                 j  == ln.st.ch[c]
-                S2 == Commit(S, c, S.now + a.dt, ProvOf(j.cur), SetOf(j.cons), j.frozen, j.log)
+                S2 == [Commit(S, c, S.now + a.dt, ProvOf(j.cur), SetOf(j.cons), j.frozen, j.log)
+                         EXCEPT !.ch[c].app = AppOf(j.app)]
             IN /\ Report(ln, Sanity(ln, S, S2)
                              \cup Viol(S, a, ln.res, S2, obs[c].dig, j.dig,
-                                       [d \in Chains |-> obs[d].status], [d \in Chains |-> ln.st.ch[d].status]))
+                                       [d \in Chains |-> obs[d].status], [d \in Chains |-> ln.st.ch[d].status])
+                             \cup { <<"C44", "export-import-is-identity-on-abstract-state">> : x \in
+                                      IF a.a = "ExportImport"
+                                         /\ ~(/\ ln.res = "ok" /\ S2.ch[c].cur = S.ch[c].cur /\ S2.ch[c].cons = S.ch[c].cons
+                                              /\ S2.ch[c].frozen = S.ch[c].frozen /\ S2.ch[c].app = S.ch[c].app
+                                              /\ j.status = obs[c].status) THEN {1} ELSE {} }
+                             \cup { <<"C44", "export-import-keeps-client-and-path-metadata">> : x \in
+                                      IF a.a = "ExportImport" /\ [j.meta EXCEPT !.reexport = ""] # [obs[c].meta EXCEPT !.reexport = ""] THEN {1} ELSE {} }
+                             \cup { <<"C44", "re-export-equals-export">> : x \in
+                                      IF a.a = "ExportImport" /\ ln.res = "ok" /\ j.meta.reexport # "same" THEN {1} ELSE {} }
+                             \cup { <<"C09", "bank-operations-follow-app-state">> : x \in
+                                      IF j.coins = Cardinality({ y \in AppOf(j.app) : y[3] % 2 = 0 }) THEN {} ELSE {1} })
                /\ S' = S2
                /\ obs' = ObsOf(ln)
                /\ l' = l + 1
